@@ -372,3 +372,86 @@ func c03ConcReplayFor(c *Ctx, id string, rp c03ConcReplay, everyStatementOf map[
 	}
 	return fmt.Sprintf("order %s answers %v; sequential: %v | %v", sched.DescribeOrder(out.Order), o, seq[0], seq[1])
 }
+
+// c03OtherTab: "... with per-request CSRF cookies this holds for every outstanding login of a browser
+// regardless of the order in which the logins were started and completed" — also when, between start
+// and completion, the same browser does something else in another tab that makes the proxy clear
+// session state: opens a protected page (sign-in page), the sign-in or the sign-out endpoint, or sends
+// a stale session cookie. Fixed histories on both stores; every outstanding login has to complete.
+func c03OtherTab(c *Ctx) {
+	if c.Shards > 1 && c.Shard != 3%c.Shards {
+		return
+	}
+	up := world.NewUpstream("c03tab")
+	defer up.Close()
+	for _, store := range []string{"cookie", "redis"} {
+		for _, between := range []string{"protected-page", "sign-in-endpoint", "sign-out-endpoint", "stale-session-cookie", "nothing"} {
+			world.ResetClock()
+			world.SeedRandom(c.Seed, 0)
+			idp := world.NewIdP()
+			cfg := &ProxyCfg{Flags: append(baseFlags(up.URL()), "--email-domain=*", "--cookie-secure=false", "--cookie-csrf-per-request=true", "--cookie-csrf-expire=15m")}
+			if store == "redis" {
+				cfg.Redis = world.NewRedis()
+			}
+			px, err := buildProxy(cfg)
+			if err != nil {
+				c.Error("C03 other tab: %v", err)
+				return
+			}
+			b := newBrowser(px, "http", "app.example.com")
+			type login struct{ user, rd, cb string }
+			ls := []*login{{user: "alice", rd: "/a"}, {user: "bob", rd: "/b"}}
+			start := func(l *login) string {
+				_, loc, err := b.Start(l.rd)
+				if err != nil {
+					return err.Error()
+				}
+				cb, _, err := idp.Authorize(loc, l.user)
+				if err != nil {
+					return err.Error()
+				}
+				l.cb = cb
+				return ""
+			}
+			if e := start(ls[0]); e != "" {
+				c.Error("C03 other tab: start: %s", e)
+				continue
+			}
+			switch between {
+			case "protected-page":
+				b.Get("/some/page")
+			case "sign-in-endpoint":
+				b.Get("/oauth2/sign_in")
+			case "sign-out-endpoint":
+				b.Get("/oauth2/sign_out")
+			case "stale-session-cookie":
+				b.Get("/some/page", [2]string{"Cookie", b.Jar.Header("http", "app.example.com", "/") + "; _oauth2_proxy=c3RhbGU=|1|x"})
+			}
+			if e := start(ls[1]); e != "" {
+				c.Error("C03 other tab: start: %s", e)
+				continue
+			}
+			for _, order := range [][2]int{{0, 1}} {
+				for _, i := range order {
+					l := ls[i]
+					resp := b.Callback(l.cb)
+					c.Inc("evaluations")
+					c.Inc("other_tab_completions")
+					cs := map[string]any{"kind": "other-tab", "store": store, "between": between, "login": l.user, "status": resp.Status}
+					switch {
+					case resp.Panic != nil:
+						c.Violate("C03/panic", fmt.Sprintf("other-tab history (%s, %s): callback of %s panics: %v", store, between, l.user, resp.Panic), 6, cs)
+					case resp.Status != 302 || !c08HasSession(b):
+						c.Violate("C03/own-login-not-completed/after-"+between, fmt.Sprintf("%s store, per-request CSRF cookies: login of %s was started, then the same browser did %q in another tab, then a second login was started; the callback of %s's login (unmodified state, the browser's own cookies) is answered %d instead of completing", store, l.user, between, l.user, resp.Status), 6, cs)
+					default:
+						c.Inc("other_tab_completions_ok")
+					}
+				}
+			}
+			if cfg.Redis != nil {
+				cfg.Redis.Close()
+			}
+		}
+	}
+	world.NewIdP()
+}
